@@ -9,6 +9,7 @@ import Csvq.Lemmas.Text
 import Csvq.Lemmas.Float
 import Csvq.Model.Cast
 import Csvq.Gen.CmpFacts
+import Csvq.Lemmas.ParseFloat
 namespace Csvq.C06
 open Csvq
 
@@ -537,6 +538,158 @@ theorem gen_calc_ladder :
     Gen.calcLadder = ["value.ToIntegerStrictly -> calculateInteger(val1,val2,operator)",
       "value.ToFloat -> calculateFloat(val1,val2,operator)", "else -> value.NewNull()"] := by decide
 
+/-! ## texts read as numbers (Model/ParseFloat.lean: option.TrimSpace, strconv.ParseInt, strconv.ParseFloat) -/
+
+/-- the coercion profile the conversion functions give a TEXT, computed by the model from its bytes
+    (`dt` and `u` — the datetime reading and the upper-cased trimmed text — stay inputs) -/
+def textProfile (s : Bytes) (dt : Option Int) (u : Bytes) : Profile :=
+  { raw := .str s, int? := PF.strToIntStrictB s, flt? := PF.strToFloat s, dt? := dt,
+    bool? := (match PF.strTernaryB s with | .U => none | .T => some true | .F => some false),
+    strU? := some u, tern := PF.strTernaryB s }
+
+/-- **The integer rung and the float rung agree.**  Every text that strconv.ParseInt accepts as the int64 `i`
+    is also accepted by strconv.ParseFloat, and as float64(i) — the same value the ladder would reach for the
+    Integer `i` itself (`-0` reads as the negative zero, which compares equal to 0). -/
+theorem int_text_float_agrees (s : Bytes) (i : Int) (h : parseIntStrict s = some i) :
+    PF.parseFloat s = some (if i = 0 then (if s.head? = some 45 then .negz else .fin 0) else FVal.ofInt i) := by
+  unfold parseIntStrict at h
+  cases hps : parseSigned s with
+  | none => rw [hps] at h; cases h
+  | some j =>
+    rw [hps] at h
+    simp only [] at h
+    by_cases hr : minI64 ≤ j ∧ j ≤ maxI64
+    · rw [if_pos hr] at h
+      cases h
+      unfold minI64 maxI64 at hr
+      have main : ∀ (neg : Bool) (t : Bytes) (n : Nat), parseNat t = some n → n ≤ 2 ^ 63 →
+          (∀ c cs, t = c :: cs → 48 ≤ c ∧ c ≤ 57 → PF.special s = none ∧ PF.stripSign s = (neg, t)) →
+          PF.parseFloat s = some (if n = 0 then (if neg then .negz else .fin 0)
+                                   else FVal.signed neg (FVal.roundMag (n * FVal.unit) 1)) := by
+        intro neg t n hn hb hshape
+        unfold parseNat at hn
+        cases t with
+        | nil => simp at hn
+        | cons c cs =>
+          simp only [List.isEmpty_cons, Bool.false_eq_true, if_false] at hn
+          have hc := PF.parseDigits_head_digit c cs 0 n hn
+          obtain ⟨hsp, hss⟩ := hshape c cs rfl hc
+          have hhex := PF.stripHex_digits (c :: cs) n 0 hn
+          obtain ⟨k, hk, hk1, _⟩ := PF.readBody_digits s (c :: cs) neg n (by simp) hn
+          have hval := PF.parsed_int_value neg n k hk1 hb
+          unfold PF.parseFloat
+          rw [hsp]
+          simp only []
+          unfold PF.readFloat
+          rw [hss]
+          simp only [hhex]
+          rw [hk]; exact hval
+      unfold parseSigned at hps
+      split at hps
+      · -- "-" digits
+        rename_i rest
+        cases hn : parseNat rest with
+        | none => rw [hn] at hps; cases hps
+        | some n =>
+          rw [hn] at hps
+          simp at hps
+          have hb : n ≤ 2 ^ 63 := by omega
+          have := main true rest n hn hb (fun c cs hs hc => by subst hs; exact ⟨(PF.special_digit c cs hc).2.2, rfl⟩)
+          rw [this]
+          congr 1
+          subst hps
+          by_cases h0 : n = 0
+          · simp [h0]
+          · have e1 : ¬ (-(n : Int) = 0) := by omega
+            simp only [h0, e1, if_false]
+            unfold FVal.ofInt
+            rw [if_neg e1]
+            have : decide (-(n : Int) < 0) = true := by simp; omega
+            rw [this, Int.natAbs_neg, Int.natAbs_natCast]
+      · -- "+" digits
+        rename_i rest
+        cases hn : parseNat rest with
+        | none => rw [hn] at hps; cases hps
+        | some n =>
+          rw [hn] at hps
+          simp at hps
+          have hb : n ≤ 2 ^ 63 := by omega
+          have := main false rest n hn hb (fun c cs hs hc => by subst hs; exact ⟨(PF.special_digit c cs hc).2.1, rfl⟩)
+          rw [this]
+          congr 1
+          subst hps
+          by_cases h0 : n = 0
+          · simp [h0]
+          · have e1 : ¬ ((n : Int) = 0) := by omega
+            simp only [h0, e1, if_false]
+            unfold FVal.ofInt
+            rw [if_neg e1]
+            have : decide ((n : Int) < 0) = false := by simp
+            rw [this, Int.natAbs_natCast]
+      · -- digits
+        rename_i hno45 hno43
+        cases hn : parseNat s with
+        | none => rw [hn] at hps; cases hps
+        | some n =>
+          rw [hn] at hps
+          simp at hps
+          have hb : n ≤ 2 ^ 63 := by omega
+          have := main false s n hn hb
+            (fun c cs hs hc => by rw [hs]; exact ⟨(PF.special_digit c cs hc).1, PF.stripSign_digit c cs hc⟩)
+          rw [this]
+          congr 1
+          subst hps
+          have hhead : ¬ s.head? = some 45 := by
+            intro hh
+            cases s with
+            | nil => simp at hh
+            | cons c cs => simp at hh; exact hno45 cs (by rw [hh])
+          by_cases h0 : n = 0
+          · simp [h0, hhead]
+          · have e1 : ¬ ((n : Int) = 0) := by omega
+            simp only [h0, e1, if_false]
+            unfold FVal.ofInt
+            rw [if_neg e1]
+            have : decide ((n : Int) < 0) = false := by simp
+            rw [this, Int.natAbs_natCast]
+    · rw [if_neg hr] at h; cases h
+
+/-- the same through the conversions of lib/value: a text ToIntegerStrictly reads as `i` is read by ToFloat
+    as a float equal to float64(i) -/
+theorem text_profile_int_float (s : Bytes) (dt : Option Int) (u : Bytes) (i : Int)
+    (h : (textProfile s dt u).int? = some i) :
+    ∃ f, (textProfile s dt u).flt? = some f ∧ FVal.feq f (FVal.ofInt i) = true := by
+  have h' : parseIntStrict (PF.trimSpace s) = some i := h
+  have := int_text_float_agrees (PF.trimSpace s) i h'
+  refine ⟨_, this, ?_⟩
+  by_cases h0 : i = 0
+  · subst h0
+    simp only [if_true]
+    split <;> decide
+  · simp only [h0, if_false]
+    unfold FVal.ofInt
+    rw [if_neg h0]
+    cases hm : FVal.roundMag (i.natAbs * FVal.unit) 1 with
+    | none => cases hd : decide (i < 0) <;> simp [FVal.signed, FVal.feq]
+    | some m =>
+      cases m with
+      | zero => cases hd : decide (i < 0) <;> simp [FVal.signed, FVal.feq]
+      | succ m => cases hd : decide (i < 0) <;> simp [FVal.signed, FVal.feq, FVal.num?]
+
+/-- INTEGER(text), spelled out: ParseInt first, then ParseFloat truncated (a non-finite or out-of-range float
+    gives the minimum integer, as `int64(f)` does on amd64), else NULL -/
+theorem cast_integer_text (s : Bytes) (dt : Option Int) (u : Bytes) :
+    castInteger (textProfile s dt u) =
+      match parseIntStrict (PF.trimSpace s) with
+      | some i => .int i
+      | none => match PF.parseFloat (PF.trimSpace s) with
+        | some f => (match truncToInt64 f with | some i => .int i | none => .int minI64)
+        | none => .null := rfl
+
+/-- FLOAT(text) and BOOLEAN(text) -/
+theorem cast_float_text (s : Bytes) (dt : Option Int) (u : Bytes) :
+    castFloat (textProfile s dt u) = (match PF.parseFloat (PF.trimSpace s) with | some f => .flt f | none => .null) := rfl
+
 /-! ## non-vacuity: concrete operands meeting the hypotheses -/
 
 def exInt (i : Int) : Profile :=
@@ -552,5 +705,14 @@ example : calcInt .mod (-7) 3 = some (-1) := by decide
 example : evalBetween false (exInt 2) (exInt 1) exNull = .U := by decide
 example : evalAny .eq (exInt 2) [exInt 1, exNull, exInt 2, exInt 3] = .T := by decide
 example : caseIdx (some (exInt 2)) [exInt 1, exNull, exInt 2] 0 = some 2 := by decide
+
+-- texts: "-42" is an integer text; "1_0.5e-3", "0x1.8p1" are float spellings; "1_" is not; the guard of option.TrimSpace
+example : parseIntStrict [45, 52, 50] = some (-42) := by decide
+example : PF.readFloat [45, 52, 50] = some { neg := true, hex := false, mant := 42, nd := 2, dp := 2 } := by decide
+example : PF.readFloat [49, 95, 48, 46, 53, 101, 45, 51] = some { neg := false, hex := false, mant := 105, nd := 3, dp := -1 } := by decide
+example : PF.readFloat [48, 120, 49, 46, 56, 112, 49] = some { neg := false, hex := true, mant := 24, nd := 2, dp := 5 } := by decide
+example : PF.readFloat [49, 95] = none := by decide
+example : PF.trimSpace [32, 0xE2, 0x80, 0x80, 49, 0xC2, 0xA0] = [49] := by decide
+example : PF.trimSpace [0xE2, 0x80, 0x80, 49] = [0xE2, 0x80, 0x80, 49] := by decide
 
 end Csvq.C06
